@@ -131,6 +131,9 @@ def _violations(sb):
         ("unknown-comment-mode", "client", C(include_comments="loud"), (EX.InvalidConfiguration,)),
         ("unknown-comment-mode-capitalised", "client", C(include_comments="Stable"), (EX.InvalidConfiguration,)),
         ("scalar-without-type", "client", C(scalars={"DateTime": {"parse": "x.y"}}), (EX.MissingConfiguration,)),
+        # the header constraint does not depend on which schema source is used
+        ("unresolvable-header-variable:local-schema", "client", C(remote_schema_headers={"Authorization": "$PYVC_DEFINITELY_UNSET_VARIABLE"}), (EX.InvalidConfiguration,)),
+        ("unresolvable-header-variable:local-schema:graphqlschema", "schema", S(remote_schema_headers={"X-Key": "$PYVC_DEFINITELY_UNSET_VARIABLE"}), (EX.InvalidConfiguration,)),
         ("unresolvable-header-variable", "client", C(schema_path=_DROP, remote_schema_url="http://127.0.0.1:9/graphql",
                                                     remote_schema_headers={"Authorization": "$PYVC_DEFINITELY_UNSET_VARIABLE"}), (EX.InvalidConfiguration,)),
         ("base-client-file-missing", "client", C(base_client_file_path=sb.p("nope.py"), base_client_name="X"), (EX.InvalidConfiguration,)),
